@@ -103,6 +103,7 @@ type Options struct {
 	Trace       bool
 	CaseLimit   map[string]int
 	StubStr     []string
+	StubZero    []string
 }
 
 type worker struct {
@@ -125,6 +126,13 @@ func newWorker(prog *ssa.Program, opts Options, harnessPkgs []string) (*worker, 
 		m.HarnessP[p] = true
 	}
 	m.Trace = opts.Trace
+	for _, name := range opts.StubZero {
+		name := name
+		m.intr[name] = func(m *Machine, fr *frame, a []Value) Value {
+			m.stub(name)
+			return m.zeroResults(fr.fn)
+		}
+	}
 	for _, name := range opts.StubStr {
 		name := name
 		m.intr[name] = func(m *Machine, fr *frame, a []Value) Value {
